@@ -834,3 +834,12 @@ Definition agg_lit_exact (g : aggregator) : bool :=
   | None, None => true
   | _, _ => false
   end.
+
+(* the number printed into HAVING parses back to the threshold the reference meaning compares with (for an attribute: by
+   definition of agg_threshold; for `duration`: the integer text of the nanoseconds parses back to them).  A boolean guard of
+   traceql_correct_agg, checked on every harness case inside the modelled domain (TraceqlCase.agg_lit_ok). *)
+Definition agg_guard (ag : aggregator) : bool :=
+  match agg_threshold true ag, agg_cmp_text ag with
+  | Some th, Ok txt => match num_of_text txt with Some q => Qeq_bool q th | None => false end
+  | _, _ => false
+  end.
